@@ -124,8 +124,8 @@ Sheet(G, grid) == SheetD(G, grid, 2)
 
 (* evaluation of one object at one point given in xyz order (a 1-point grid) *)
 PointGrid(X) == LET D == Len(X) IN Tab(D, LAMBDA a : <<X[D - a + 1]>>)
-EvalAt(G, X)  == LET S == Sheet(G, PointGrid(X)) IN Tab(Len(G.C), LAMBDA c : S.val[c][1])
-JacAt(G, X)   == LET S == Sheet(G, PointGrid(X)) IN        \* [c][b]
+EvalAt(G, X)  == LET S == SheetD(G, PointGrid(X), 1) IN Tab(Len(G.C), LAMBDA c : S.val[c][1])
+JacAt(G, X)   == LET S == SheetD(G, PointGrid(X), 1) IN        \* [c][b]
                  Tab(Len(G.C), LAMBDA c : Tab(SDim(G), LAMBDA b : S.jac[b][c][1]))
 
 -------------------------------------------------------------------------------
